@@ -75,7 +75,8 @@ Check_ENUM(r) ==
   LET pb(i) == IF r.bitmask THEN ProbeBitmask(r.consts, r.probes[i]) ELSE ProbeOrdinary(r.consts, r.probes[i])
       clausesP == UNION {pb(i) : i \in 1..Len(r.probes)}
       clausesJ == UNION {JunkClauses(r.consts, r.junk[i]) : i \in 1..Len(r.junk)}
-  IN clausesP \cup clausesJ
+      clausesC == IF "conc_diff" \in DOMAIN r /\ r.conc_diff # 0 THEN {"same_text_when_converted_concurrently"} ELSE {}
+  IN clausesP \cup clausesJ \cup clausesC
 
 \* indices of the probes that fail a given clause (for the finding key)
 FailingProbes(r, clause) ==
